@@ -48,6 +48,7 @@ type edEnv struct {
 	totals  map[string]*big.Int
 	total   *big.Int
 	nid     int
+	tag     string // "edited": every period takes over at its own start block; "midflight": one does not (F27)
 }
 
 func newEdEnv(rng *Rng, out *Out) *edEnv {
@@ -75,7 +76,8 @@ func newEdEnv(rng *Rng, out *Out) *edEnv {
 }
 
 // edit delivers the admin message the way DeliverTx does and tells the model the new stored list
-func (e *edEnv) edit(ps []*edPeriod) {
+func (e *edEnv) edit(h uint64, ps []*edPeriod) {
+	e.ctx = e.ctx.WithBlockHeight(int64(h))
 	var rps []*clptypes.RewardPeriod
 	var toks []string
 	for _, p := range ps {
@@ -102,7 +104,7 @@ func (e *edEnv) edit(ps []*edPeriod) {
 			write()
 		}
 	}
-	e.out.Emit(strings.TrimSpace("rw.periods "+strings.Join(toks, " ")), res, "edit."+res, res == "ok")
+	e.out.Emit(strings.TrimSpace(fmt.Sprintf("rw.edit %d %s", e.ctx.BlockHeight(), strings.Join(toks, " "))), res, "edit."+res, res == "ok")
 }
 
 // block runs the EndBlocker of height h; `edits` are delivered in the block before it
@@ -125,7 +127,7 @@ func (e *edEnv) block(h uint64, cls string) {
 	if cur != nil {
 		curS = fmt.Sprintf("cur=%d,%d,%s,%d", cur.RewardPeriodStartBlock, cur.RewardPeriodEndBlock, cur.RewardPeriodAllocation, cur.RewardPeriodMod)
 	}
-	e.out.Emit(fmt.Sprintf("chk c20.rwblock tag=clp.endblock.rewards.per-block.edited %d %s %s", h, delta, curS), "true", "chk.rwblock", false)
+	e.out.Emit(fmt.Sprintf("chk c20.rwblock tag=clp.endblock.rewards.per-block.%s %d %s %s", e.tag, h, delta, curS), "true", "chk.rwblock", false)
 	e.total.Add(e.total, delta.BigInt())
 	if cur != nil {
 		key := fmt.Sprintf("%d %d %s %d", cur.RewardPeriodStartBlock, cur.RewardPeriodEndBlock, cur.RewardPeriodAllocation, cur.RewardPeriodMod)
@@ -133,9 +135,9 @@ func (e *edEnv) block(h uint64, cls string) {
 			e.totals[key] = big.NewInt(0)
 		}
 		e.totals[key].Add(e.totals[key], delta.BigInt())
-		e.out.Emit(fmt.Sprintf("chk c20.rwperiod tag=clp.endblock.rewards.per-period.edited %s %s", key, e.totals[key]), "true", "chk.rwperiod", false)
+		e.out.Emit(fmt.Sprintf("chk c20.rwperiod tag=clp.endblock.rewards.per-period.%s %s %s", e.tag, key, e.totals[key]), "true", "chk.rwperiod", false)
 	}
-	e.out.Emit(fmt.Sprintf("chk c20.rwcum tag=clp.endblock.rewards.cumulative.edited %s %s", e.total, accu), "true", "chk.rwcum", false)
+	e.out.Emit(fmt.Sprintf("chk c20.rwcum tag=clp.endblock.rewards.cumulative.%s %s %s", e.tag, e.total, accu), "true", "chk.rwcum", false)
 }
 
 func smallPeriod(rng *Rng, start uint64, minEnd uint64) *edPeriod {
@@ -156,9 +158,47 @@ func smallPeriod(rng *Rng, start uint64, minEnd uint64) *edPeriod {
 	return &edPeriod{start: start, end: end, mod: uint64(rng.Intn(4)), alloc: alloc, distribute: rng.Chance(1, 3)}
 }
 
+// directed histories for F27 (a period that becomes current in mid-flight must not pay out what
+// its predecessor accumulated), small numbers:
+//
+//	(a) the running period is edited between two distribution blocks: A=[10..29] 20000 rowan (1000
+//	    per block) mod 4 runs 10..15 (distribution blocks 10, 14; block 15 carries 1000); in block 16
+//	    the admin replaces it with A'=[10..29] 20 rowan (1 per block) mod 4; the next distribution
+//	    block 18 may create at most 4;
+//	(b) no edit: [A=[10..15] 6000 rowan mod 4, B=[12..30] 19 rowan mod 1], B listed after A: A's last
+//	    block 15 is not a distribution block and carries 1000; block 16 (B, 1 per block) may create 1.
+func directedMidflight(rng *Rng, out *Out) int {
+	n := 0
+	for _, which := range []int{0, 1} {
+		e := newEdEnv(rng, out)
+		e.tag = "midflight"
+		out.Emit("rw.periods", "ok", "periods.empty", false)
+		out.Emit("rw.init "+e.app.ClpKeeper.GetBlockDistributionAccu(e.ctx).String(), "ok", "init", false)
+		if which == 0 {
+			e.edit(9, []*edPeriod{{start: 10, end: 29, mod: 4, alloc: big.NewInt(20000)}})
+			for h := uint64(9); h <= 15; h++ {
+				e.block(h, "end.directed.a")
+				n++
+			}
+			e.edit(16, []*edPeriod{{start: 10, end: 29, mod: 4, alloc: big.NewInt(20)}})
+			for h := uint64(16); h <= 31; h++ {
+				e.block(h, "end.directed.a")
+				n++
+			}
+		} else {
+			e.edit(9, []*edPeriod{{start: 10, end: 15, mod: 4, alloc: big.NewInt(6000)}, {start: 12, end: 30, mod: 1, alloc: big.NewInt(19)}})
+			for h := uint64(9); h <= 32; h++ {
+				e.block(h, "end.directed.b")
+				n++
+			}
+		}
+	}
+	return n
+}
+
 func init() {
 	families["rwedits"] = func(rng *Rng, n int, out *Out, replay string) {
-		blocks := 0
+		blocks := directedMidflight(rng, out)
 		for blocks < n {
 			e := newEdEnv(rng, out)
 			h := uint64(2 + rng.Intn(20))
@@ -172,7 +212,11 @@ func init() {
 			k := uint64(1 + rng.Intn(2))
 			o := uint64(2 + rng.Intn(int(modA)-1)) // 2 .. modA
 			c := sA + k*modA + o
-			variant := rng.Intn(4)
+			variant := rng.Intn(6)
+			e.tag = "edited"
+			if variant >= 4 {
+				e.tag = "midflight"
+			}
 			g := []uint64{0, 1, 1, 2, 5}[rng.Intn(5)]
 			B := smallPeriod(rng, c+g, 0)
 			var C *edPeriod
@@ -205,33 +249,33 @@ func init() {
 			switch variant {
 			case 0: // V1: replaced by [B (, C)]
 				setC(B.end)
-				e.edit(withList(A))
+				e.edit(h, withList(A))
 				for ; h < c && blocks < n; h++ {
 					e.block(h, cls)
 					blocks++
 				}
 				last = 0
-				e.edit(withList(B, C))
+				e.edit(h, withList(B, C))
 			case 1: // V2: replaced by [B, A (, C)], B overtakes A before A's end and outlasts it
 				B = smallPeriod(rng, c+g, A.end)
 				setC(B.end)
-				e.edit(withList(A))
+				e.edit(h, withList(A))
 				for ; h < c && blocks < n; h++ {
 					e.block(h, cls)
 					blocks++
 				}
-				e.edit(withList(B, A, C))
+				e.edit(h, withList(B, A, C))
 			case 2: // V3: no edit while running: [B, A (, C)] from the start, B starts mid-interval of A
 				B = smallPeriod(rng, c, A.end)
 				setC(B.end)
-				e.edit(withList(B, A, C))
+				e.edit(h, withList(B, A, C))
 			case 3: // V4: rewards switched off at the cut, B (, C) added a few blocks later
-				e.edit(withList(A))
+				e.edit(h, withList(A))
 				for ; h < c && blocks < n; h++ {
 					e.block(h, cls)
 					blocks++
 				}
-				e.edit(nil)
+				e.edit(h, nil)
 				off := uint64(1 + rng.Intn(3))
 				for j := uint64(0); j < off && blocks < n; j++ {
 					e.block(h, cls)
@@ -241,7 +285,31 @@ func init() {
 				B = smallPeriod(rng, h+uint64(rng.Intn(3)), 0)
 				setC(B.end)
 				last = 0
-				e.edit(withList(B, C))
+				e.edit(h, withList(B, C))
+			case 4: // V5 (F27): [A, B]: B, listed AFTER A, overlaps A's tail and takes over in mid-flight when A ends between two distribution blocks
+				A.end = sA + k*modA + o - 1 // A's last block is not a distribution block: accumulator non-empty
+				B = smallPeriod(rng, A.end-uint64(rng.Intn(int(o))), A.end+1)
+				setC(B.end)
+				e.edit(h, withList(A, B, C))
+			case 5: // V6 (F27): the running period itself is edited (smaller allocation and/or other mod / end) between two distribution blocks
+				e.edit(h, withList(A))
+				for ; h < c && blocks < n; h++ {
+					e.block(h, cls)
+					blocks++
+				}
+				A2 := &edPeriod{start: A.start, end: A.end, mod: A.mod, alloc: new(big.Int).Set(A.alloc), distribute: A.distribute}
+				switch rng.Intn(3) {
+				case 0:
+					A2.alloc = big.NewInt(int64(1 + rng.Intn(1000)))
+				case 1:
+					A2.alloc = big.NewInt(int64(1 + rng.Intn(1000)))
+					A2.mod = uint64(1 + rng.Intn(3))
+				case 2:
+					A2.alloc = big.NewInt(int64(1 + rng.Intn(1000)))
+					A2.end = c + uint64(rng.Intn(6))
+				}
+				last = 0
+				e.edit(h, withList(A2))
 			}
 			for ; h <= last+2 && blocks < n; h++ {
 				e.block(h, cls)
